@@ -99,14 +99,25 @@ func viewWitnesses() []*Graph {
 	}
 }
 
-func lossyWitnesses() []*Graph {
+// attributes with Docs: kept by DupAttribute since its repair; part of the corpus, so a
+// copy that loses them again is a fresh VIOLATION (copy-differs/docs)
+func docsCorpus() []*Graph {
 	docs := p("string")
 	docs.Docs = "http://docs/a"
 	docs2 := arr(p("int"))
 	docs2.Docs = "http://docs/b"
+	root := obj(fl("k", p("int")))
+	root.Docs = "http://docs/root"
 	return []*Graph{
 		{Root: obj(fl("a", docs), fl("b", p("int")))},
 		{Users: []User{{Name: "T", Att: obj(fl("x", docs2))}}, Root: ref(0)},
+		{Root: root},
+	}
+}
+
+// result types with a ContentType, which ResultTypeExpr.Dup does not copy (recorded finding)
+func lossyWitnesses() []*Graph {
+	return []*Graph{
 		{Users: []User{{Name: "R", Result: true, Identifier: "application/vnd.r", ContentType: "application/json", Att: obj(fl("id", p("int")))}}, Root: ref(0)},
 		{Users: []User{{Name: "R", Result: true, Identifier: "application/vnd.r3", ContentType: "text/plain", Att: obj(fl("id", p("int")))}}, Root: arr(ref(0))},
 	}
@@ -118,7 +129,7 @@ func (r *run) streams(tier string) {
 		nGraphs, nPairs, nDag = 50000, 20000, 1000
 	}
 	// 1. fixed corpus
-	for _, g := range corpus() {
+	for _, g := range append(corpus(), docsCorpus()...) {
 		r.checkGraph(g, "corpus", false)
 	}
 	// 2. generated graphs
